@@ -79,6 +79,29 @@ def build_traces(path, tier, seed):
             s = gn.interp_left(float(xf[1]), xf, y)                     # scalar query exactly on a node
             add({"kind": "interp_left", "xs": enc_seq(xf), "y": enc_seq(y), "x0": enc_seq([xf[1]]), "out": enc_seq([s])},
                 {"kind": "interp_left", "nodes": list(nodes), "scalar": True})
+    # integer-typed nodes (also negative ones) with fractional queries on both sides of zero, nodes / queries as lists and ints
+    for nodes_i in ([-6, -4, -1, 0, 3, 7], [-3, -2, 5], [0, 2, 3, 10], [-9, -8, -7]):
+        xs_i = np.array(nodes_i, dtype=[np.int64, np.int32, np.int16][len(nodes_i) % 3])
+        y_i = np.array([float((3 * j * j) % 7) - 2.5 for j in range(len(nodes_i))])
+        q_i = np.array([q for q in (-8.5, -5.5, -3.9, -1.5, -0.5, 0.0, 0.5, 2.5, 3.0, 6.99, 7.0, 11.5) if q >= nodes_i[0]])
+        for form in range(3):
+            xs_arg = [xs_i, list(nodes_i), xs_i.astype(float)][form]
+            out_i = gn.interp_left(q_i, xs_arg, y_i)
+            add({"kind": "interp_left", "xs": enc_seq(nodes_i), "y": enc_seq(y_i), "x0": enc_seq(q_i), "out": enc_seq(out_i)},
+                {"kind": "interp_left", "nodes": nodes_i, "node_type": ["int ndarray", "list of int", "float ndarray"][form]})
+            idx_i = gn.interp_left(q_i, xs_arg)
+            add({"kind": "interp_left", "xs": enc_seq(nodes_i), "y": enc_seq(np.arange(len(nodes_i))), "x0": enc_seq(q_i), "out": enc_seq(idx_i)},
+                {"kind": "interp_left", "nodes": nodes_i, "y": None, "node_type": ["int ndarray", "list of int", "float ndarray"][form]})
+            for q in (-0.5, -1.5, 2.5):
+                if q >= nodes_i[0]:
+                    s_i = gn.interp_left(q, xs_arg, y_i)
+                    add({"kind": "interp_left", "xs": enc_seq(nodes_i), "y": enc_seq(y_i), "x0": enc_seq([q]), "out": enc_seq([s_i])},
+                        {"kind": "interp_left", "nodes": nodes_i, "scalar": q})
+        f_i = np.array([[y_i[j], 0.5 * j] for j in range(len(nodes_i))])
+        q2_i = np.array([-8.5, -5.5, -1.5, -0.5, 0.5, 2.5, 11.5])
+        out2_i = gn.interp2d(q2_i, xs_i, f_i)
+        add({"kind": "interp2d", "xf": enc_seq(nodes_i), "cols": [enc_seq(f_i[:, c]) for c in range(2)], "x": enc_seq(q2_i),
+             "out": [enc_seq(out2_i[:, c]) for c in range(2)]}, {"kind": "interp2d", "nodes": nodes_i, "node_type": "int ndarray"})
     nrand = 30 if tier == "quick" else 250
     for i in range(nrand):
         k = int(rng.integers(2, 12))
@@ -143,6 +166,16 @@ def build_traces(path, tier, seed):
                     ds.t_eff(d_c * 1.001, site, z, r, nf)
                 except ValueError:
                     raised = True
+                if x == 1.0:
+                    # ... and a displacement that IS the corner displacement C_h(3) * 9 * Z * R * N * g / (2 pi)^2 (evaluated left
+                    # to right): the corner itself belongs to the domain, the effective period there is 3 s
+                    d_exact = {"C": 3.96, "D": 6.42, "E": 9.96}[site] * z * r * nf / (2 * np.pi) ** 2 * g
+                    try:
+                        t_c = float(ds.t_eff(d_exact, site, z, r, nf))
+                    except ValueError:
+                        t_c = float("nan")
+                    add({"kind": "teff", "x": enc(1.0), "t": enc(t_c), "raised_above": raised},
+                        {"kind": "teff", "site": site, "x": "exactly the corner displacement", "t": t_c, "z": z, "r": r, "n": nf})
                 add({"kind": "teff", "x": enc(x), "t": enc(t), "raised_above": raised}, {"kind": "teff", "site": site, "x": x, "t": float(t), "z": z, "r": r, "n": nf})
     write_ndjson(path, recs)
     return meta
